@@ -8,6 +8,7 @@ feasibility uses the same literal bookkeeping as ``CFG.paths_avoiding`` (contrad
 from __future__ import annotations
 
 import ast
+from .expand import clone
 
 from .cfg import CFG
 from .nf import NF, Scope, Poly
@@ -154,7 +155,7 @@ class PathEval:
 
 def _as_load(t):
     import copy
-    t2 = copy.deepcopy(t)
+    t2 = clone(t)
     for x in ast.walk(t2):
         if hasattr(x, "ctx"):
             x.ctx = ast.Load()
